@@ -28,6 +28,10 @@ Pdup = _mk_dup()
 Pdup.__qualname__ = 'P'      # same module, same qualified name, same repr as P: only identity tells them apart
 
 
+class SelfA: pass            # placeholders for "the generated dataclass itself" (C10: self-referential fields); the real
+class SelfB(SelfA): pass     # classes are created per case and substituted through INST_FACTORY when values are built
+
+
 class Text: pass             # a user class whose name is also exported by `typing` (typing.Text is str)
 class Counter: pass          # … and one that names a typing generic
 
@@ -60,7 +64,7 @@ CLASSES = [object, type, abc.ABCMeta, NoneType, bool, int, float, str, bytes, tu
            collections.abc.Sequence, collections.abc.Iterable, collections.abc.Collection, collections.abc.Container,
            collections.abc.Set, collections.abc.MutableSet, collections.abc.MutableSequence, collections.abc.Mapping,
            collections.abc.MutableMapping, collections.abc.Iterator, GeneratorType, ListIterator,
-           P, C1, C2, G, U, MI, L, TS, Pdup, NT1, NT2, NT3, DC, Text, Counter, collections.Counter, map, filter]
+           P, C1, C2, G, U, MI, L, TS, Pdup, NT1, NT2, NT3, DC, Text, Counter, collections.Counter, map, filter, SelfA, SelfB]
 IDX = {c: i for i, c in enumerate(CLASSES)}
 NAMES = {}
 
@@ -88,6 +92,8 @@ def name_of(i):
 
 CTX = {'P': P, 'C1': C1, 'C2': C2, 'G': G, 'U': U, 'MI': MI, 'Text': Text, 'Counter': Counter}
 USER = [P, C1, C2, G, U, MI, Text, Counter]
+EXTRA_CTX = {}       # per-plugin additions (name -> placeholder class of the table) consulted when values are generated
+INST_FACTORY = {}    # placeholder class -> callable building the real instance (set by a plugin around build_val)
 # names a calling module may bind to something that is no class (string annotations naming them must still end in a verdict)
 ZCTX = {'_zmod': sys, '_znum': 5, '_zfun': len, '_znone': None, '_zstr': 'int', '_zlist': [int], '_zalias': typing.List[int]}
 SEQ = {'list': list, 'set': set, 'frozenset': frozenset, 'deque': collections.deque, 'sequence': collections.abc.Sequence,
@@ -281,6 +287,8 @@ def build_val(t):
     if k == 'lit': return lit_obj(t[1])
     if k == 'inst':
         c = CLASSES[t[1]]
+        if c in INST_FACTORY:
+            return INST_FACTORY[c]()
         if c in (type, abc.ABCMeta, GeneratorType, ListIterator, map, filter) or c.__module__ == 'collections.abc':
             raise TypeError('not instantiable')
         return c()
@@ -420,7 +428,7 @@ def lit(v):
 
 def inst_of(r, c):
     if c is object: c = r.choice([int, str, P, U])
-    subs = [x for x in [bool, int, float, str, bytes, NoneType] + USER + [NT1, NT2, NT3, DC, TS, L] if issubclass(x, c)] or [c]
+    subs = [x for x in [bool, int, float, str, bytes, NoneType] + USER + [NT1, NT2, NT3, DC, TS, L] + list(EXTRA_CTX.values()) if issubclass(x, c)] or [c]
     c = r.choice(subs)
     if c is NoneType: return lit(None)
     if c is bool: return lit(r.choice([True, False]))
@@ -480,9 +488,10 @@ def gen_val_for(r, t, d=3):
                 c = r.choice([x for x in PLAIN + [G, MI] if issubclass(x, c)] or [c])
         else: c = int
         return ["clsobj", IDX[c]]
-    if k == 'fwd': return inst_of(r, CTX.get(name_of(t[1]), U))
+    if k == 'fwd': return inst_of(r, CTX.get(name_of(t[1])) or EXTRA_CTX.get(name_of(t[1]), U))
     if k == 'str':
-        return inst_of(r, r.choice([c for c in USER if issubclass(c, CTX[name_of(t[1])])]))
+        base = CTX.get(name_of(t[1])) or EXTRA_CTX[name_of(t[1])]
+        return inst_of(r, r.choice([c for c in USER + list(EXTRA_CTX.values()) if issubclass(c, base)]))
     if k == 'seq':
         n = r.randint(0, 3)
         elems = [gen_val_for(r, t[3], d - 1) for _ in range(n)]
